@@ -546,6 +546,11 @@ def inline_new_helpers(asts, ref):
                 is_method = k[0] == "meth"
                 clsname = k[1] if is_method else None
                 hname = k[-1]
+                # a reference function that merely moved here from another module / class is not a new helper
+                from .canon import sig_of as _sig
+                shp = _sig(fn).shape
+                if any(kk.split("|")[-1] == hname and vv[0] == shp for r2, us in ref.items() for kk, vv in us.items()):
+                    continue
                 if _calls_self(fn, hname, is_method, clsname):
                     continue
                 # helpers that call other new helpers are handled once those are gone
@@ -1030,6 +1035,167 @@ def normalize_idioms(asts, ref):
             if n:
                 changed = True
                 done.append({"function": "%s:%s" % (rel, ".".join(k[1:])), "idioms_normalised": n})
+        if changed:
+            _relink(mod, rel)
+    return done
+
+
+# ---------------------------------------------------------------------------------------------------------------------
+# the inverse of inline_new_helpers: a helper of the reference tree that is GONE because a maintainer pasted its body
+# into its callers.  Where a run of statements in a function of the same class / module is exactly that body (parameters
+# bound to expressions, the helper's own locals renamed one-to-one), the run is replaced by a call and the reference
+# definition is put back.  The transformed program is equivalent to the program under analysis (a call to a function
+# whose body is the replaced code), so again nothing can be hidden; rules anchored on the helper find it again.
+
+def _match(r, c, params, locals_, sigma, lam):
+    """structural match of reference node r against current node c"""
+    if isinstance(r, ast.Name) and isinstance(r.ctx, ast.Load) and r.id in params:
+        d = ast.dump(c)
+        if r.id in sigma:
+            return ast.dump(sigma[r.id]) == d
+        if not isinstance(c, ast.expr):
+            return False
+        sigma[r.id] = c
+        return True
+    if type(r) is not type(c):
+        return False
+    if isinstance(r, ast.Name):
+        if r.id in locals_:
+            if r.id in lam:
+                return lam[r.id] == c.id
+            if c.id in lam.values():
+                return False
+            lam[r.id] = c.id
+            return True
+        return r.id == c.id
+    if isinstance(r, ast.AST):
+        for f in r._fields:
+            if f in ("ctx", "type_comment", "lineno", "col_offset", "end_lineno", "end_col_offset"):
+                continue
+            a, b = getattr(r, f, None), getattr(c, f, None)
+            if isinstance(a, list):
+                if not isinstance(b, list) or len(a) != len(b):
+                    return False
+                for x, y in zip(a, b):
+                    if not _match(x, y, params, locals_, sigma, lam):
+                        return False
+            elif isinstance(a, ast.AST):
+                if not isinstance(b, ast.AST) or not _match(a, b, params, locals_, sigma, lam):
+                    return False
+            else:
+                if a != b:
+                    return False
+        return True
+    return r == c
+
+
+def outline_vanished_helpers(asts, ref):
+    from .canon import reference_function
+    done = []
+    if not ref:
+        return done
+    for rel, mod in asts.items():
+        runits = ref.get(rel)
+        if runits is None:
+            continue
+        units = _units(mod)
+        changed = False
+        for ks in sorted(runits):
+            k = tuple(ks.split("|"))
+            if k[0] not in ("meth", "fn") or k in units:
+                continue
+            if k[0] == "meth" and ("cls", k[1]) not in units:
+                continue
+            rfn = reference_function(rel, k)
+            if rfn is None or not _eligible(rfn) or rfn.args.vararg:
+                continue
+            hname = k[-1]
+            is_method = k[0] == "meth"
+            params = [a.arg for a in rfn.args.args]
+            if is_method and not _is_static(rfn):
+                params = params[1:]
+            body = rfn.body[1:] if rfn.body and _is_doc(rfn.body[0]) and len(rfn.body) > 1 else rfn.body
+            rets = _returns(rfn)
+            value_helper = False
+            if rets:
+                if len(rets) == 1 and rets[0] is body[-1] and rets[0].value is not None:
+                    value_helper = True
+                else:
+                    continue
+            locals_ = _stored_names(body) - set(params)
+            # `x = E; return x`: the pasted copy ends with `x' = E` and goes on using x'
+            result_local = None
+            if value_helper and isinstance(body[-1].value, ast.Name) and body[-1].value.id in locals_ and len(body) >= 2 \
+                    and isinstance(body[-2], ast.Assign) and len(body[-2].targets) == 1 and isinstance(body[-2].targets[0], ast.Name) \
+                    and body[-2].targets[0].id == body[-1].value.id:
+                result_local = body[-1].value.id
+                body = body[:-1]
+                value_helper = False
+            if is_method:
+                cnode = next(c for c in mod.body if isinstance(c, ast.ClassDef) and c.name == k[1])
+                hosts = [m for m in cnode.body if isinstance(m, (ast.FunctionDef, ast.AsyncFunctionDef))]
+            else:
+                cnode = None
+                hosts = [f for f in mod.body if isinstance(f, (ast.FunctionDef, ast.AsyncFunctionDef))] + \
+                        [m for c in mod.body if isinstance(c, ast.ClassDef) for m in c.body if isinstance(m, (ast.FunctionDef, ast.AsyncFunctionDef))]
+            n_sites = 0
+            for host in hosts:
+                again = True
+                while again:
+                    again = False
+                    for lst in _stmt_lists(host):
+                        n = len(body)
+                        for i in range(0, len(lst) - n + 1):
+                            sigma, lam = {}, {}
+                            run = lst[i:i + n]
+                            ok = True
+                            for rs, cs_ in zip(body[:-1] if value_helper else body, run[:-1] if value_helper else run):
+                                if not _match(rs, cs_, set(params), locals_, sigma, lam):
+                                    ok = False
+                                    break
+                            target_kind = None
+                            if ok and value_helper:
+                                last = run[-1]
+                                rv = body[-1].value
+                                if isinstance(last, ast.Return) and last.value is not None and _match(rv, last.value, set(params), locals_, sigma, lam):
+                                    target_kind = ("return", None)
+                                elif isinstance(last, ast.Assign) and len(last.targets) == 1 and _match(rv, last.value, set(params), locals_, sigma, lam):
+                                    target_kind = ("assign", last.targets[0])
+                                elif isinstance(last, ast.Expr) and _match(rv, last.value, set(params), locals_, sigma, lam):
+                                    target_kind = ("expr", None)
+                                else:
+                                    ok = False
+                            if not ok or any(p not in sigma for p in params):
+                                continue
+                            # the helper's locals must not be used by the host outside the run
+                            moved = set(lam.values()) - ({lam[result_local]} if result_local and result_local in lam else set())
+                            outside = [x for j, st in enumerate(lst) if not (i <= j < i + n) for x in ast.walk(st)
+                                       if isinstance(x, ast.Name) and x.id in moved]
+                            if outside:
+                                continue
+                            recv = ast.Attribute(value=ast.Name(id="self", ctx=ast.Load()), attr=hname, ctx=ast.Load()) if is_method \
+                                else ast.Name(id=hname, ctx=ast.Load())
+                            call = ast.Call(func=recv, args=[copy.deepcopy(sigma[p]) for p in params], keywords=[])
+                            if result_local is not None and result_local in lam:
+                                new = ast.Assign(targets=[ast.Name(id=lam[result_local], ctx=ast.Store())], value=call)
+                            elif not value_helper or target_kind[0] == "expr":
+                                new = ast.Expr(value=call)
+                            elif target_kind[0] == "return":
+                                new = ast.Return(value=call)
+                            else:
+                                new = ast.Assign(targets=[target_kind[1]], value=call)
+                            ast.copy_location(new, run[0])
+                            ast.fix_missing_locations(new)
+                            lst[i:i + n] = [new]
+                            n_sites += 1
+                            again = True
+                            break
+                        if again:
+                            break
+            if n_sites:
+                (cnode.body if is_method else mod.body).append(rfn)
+                changed = True
+                done.append({"helper_restored": "%s:%s" % (rel, ".".join(k[1:])), "call_sites_restored": n_sites})
         if changed:
             _relink(mod, rel)
     return done
